@@ -63,6 +63,9 @@ def define():
         huge(op, "none", "H2" if op != "Reserve" else "W8")
     huge("WithCapacity", "none", "B1", tier="rot2")
     huge("WithCapacity", "none", "Z0", tier="rot2")
+    # zero-sized elements: nothing is allocated, so only the length arithmetic can refuse
+    huge("Reserve", "none", "Z0D")
+    huge("ReserveExact", "none", "Z0", tier="rot2")
     heapseq("none", "B3D", 1, 1, [(4, 0), (2, 0), (5, 0)])
     heapseq("none", "B3D", 2, 1, [(0, 3), (3, 2), (2, 0)])
     heapseq("none", "H2", 0, 0, [(1, 2), (4, 0), (3, 0)], tier="rot2")
